@@ -56,7 +56,7 @@ static void run() {
             Case c; c.set("kind", "row"); c.set("secret", hex(sec)); c.set("birthday", sm.next() % 1024); c.set("ufeat", si % 8); c.set("enc", si & 1); c.set("lang", le->name_en); c.set("a", A);
             // keep birthday identical across workers for the same seed index
             c.set("birthday", mix64(a.seed + (uint64_t)si) % 1024);
-            set_current(c); std::string m = oracle(c); rows++; if (!m.empty()) { record_failure(c, m); return; }
+            set_current(c); std::string m = oracle(c); rows++; if (!m.empty() && enum_fail(c, m)) return;
         }
     }
     ev.enumerated["coin rows (all 2047 other coins each) [this worker's shard]"] += rows;
